@@ -52,8 +52,9 @@ def mk_case(rng, kind, quick):
         if rng.random() < 0.5:
             # read-modify-write traffic: a write follows the read of the same iteration, to the same element or to the insertion staging area
             # (positions >= the shape; the shape is a multiple of every line size so that staging lines hold no regular element)
-            # (mostly a multiple of every line size, so that staging lines hold no regular element; sometimes not: a line that straddles the end of the rank)
-            c["shape"] = shape = (16 if wide else 8) if rng.random() < 0.7 else (15 if wide else 7)
+            # (a multiple of every line size, so that staging lines hold no regular element; a line that straddles the end of the rank is exercised by
+            # mk_straddle in the one pattern whose meaning is clear: first touched by a staging write, then written at a regular position)
+            c["shape"] = shape = 16 if wide else 8
             c["rows_w"] = [dict(r, w=1, pos=(r["pos"] if rng.random() < 0.7 else shape + rng.randint(0, 2))) for r in rows_r if rng.random() < 0.6]
             c["staged"] = 1 if c["rows_w"] else 0
         lines = [0, 0.5, 1, 1.5, 2, 3, 8]
